@@ -49,11 +49,45 @@ def rule_A2(ctx, prog, label, rule='A2'):
                 bt = (l.kids[0].type or '') + ' ' + (l.kids[0].dtype or '')
                 if 'mzd_t' in bt and 'cache' not in bt:
                     writers.setdefault(l.name, []).append((f.name, n))
+    # helpers that are only ever called from the constructors count as part of them (refactoring-neutral)
+    ctor = set(CONSTRUCTORS)
+    callers = {}
+    for f in prog.all_funcs():
+        for c in f.body.find('CallExpr'):
+            from .ast import callee_name
+            cn = callee_name(c)
+            if cn:
+                callers.setdefault(cn, set()).add(f.name)
+    grew = True
+    while grew:
+        grew = False
+        for name, cs in callers.items():
+            if name not in ctor and name in prog.funcs and prog.funcs[name].static and cs and cs <= ctor:
+                ctor.add(name)
+                grew = True
+    owner_of = {}
+    for h in ctor - set(CONSTRUCTORS):
+        roots = set()
+        for c0 in CONSTRUCTORS:
+            seen, st = set(), [c0]
+            while st:
+                x = st.pop()
+                if x in seen:
+                    continue
+                seen.add(x)
+                for y, cs in callers.items():
+                    if x in cs and y in ctor:
+                        st.append(y)
+            if h in seen:
+                roots.add(c0)
+        owner_of[h] = roots
     for fld in HEADER_FIELDS:
         ws = writers.get(fld, [])
         rr.instances += 1
-        bad = [(fn, n) for fn, n in ws if fn not in CONSTRUCTORS]
-        inits = set(fn for fn, n in ws)
+        bad = [(fn, n) for fn, n in ws if fn not in ctor]
+        inits = set()
+        for fn, n in ws:
+            inits |= ({fn} if fn in CONSTRUCTORS else owner_of.get(fn, set()))
         ok = not bad and set(CONSTRUCTORS) <= inits
         fn, n = bad[0] if bad else (None, None)
         rr.ob(ok, dict(field=fld, writers=sorted(inits)),
@@ -68,7 +102,7 @@ def rule_A2(ctx, prog, label, rule='A2'):
         fs = FuncSym(f)
         for fld in ('width', 'high_bitmask'):
             for fn, n in writers.get(fld, []):
-                if fn == c and n.kind == 'BinaryOperator':
+                if (fn == c or c in owner_of.get(fn, ())) and n.kind == 'BinaryOperator':
                     forms.setdefault(fld, {})[c] = _normalise(pp(strip(n.kids[1], casts=True)))
     for fld in ('width', 'high_bitmask'):
         rr.instances += 1
@@ -79,7 +113,11 @@ def rule_A2(ctx, prog, label, rule='A2'):
               Finding(rule, '%s|agree|%s' % (rule, fld), prog.func('mzd_init_window').loc, 'mzd_init_window',
                       'the constructors derive `%s` differently from the column count: mzd_init `%s` vs mzd_init_window `%s`' % (fld, a, b), {}, label))
     # rowstride: even in mzd_init, copied in mzd_init_window
-    rs = dict((fn, pp(strip(n.kids[1], casts=True))) for fn, n in writers.get('rowstride', []) if n.kind == 'BinaryOperator')
+    rs = {}
+    for fn, n in writers.get('rowstride', []):
+        if n.kind == 'BinaryOperator':
+            for c0 in ([fn] if fn in CONSTRUCTORS else sorted(owner_of.get(fn, ()))):
+                rs[c0] = pp(strip(n.kids[1], casts=True))
     rr.instances += 2
     rr.ob('rowstride' in rs.get('mzd_init_window', '') and '->' in rs.get('mzd_init_window', ''),
           dict(field='rowstride', mzd_init_window=rs.get('mzd_init_window')),
